@@ -290,4 +290,7 @@ pub(crate) mod verif {
     pub(crate) fn decode_raw_bytes(filedata: &[u8]) -> String {
         super::decode_raw_bytes(filedata)
     }
+    pub(crate) fn load_text(path: &std::path::Path) -> Option<String> {
+        super::load(path).ok()
+    }
 }
